@@ -26,7 +26,7 @@ chk("C03", "model_checking", "exhaustive append-a-byte tree and truncation grids
 
 chk("C05", "model_checking", "exhaustive enumeration of the counter arithmetic + explicit-state BFS of the real device against a reference acceptor",
     "(a) the real next_fcnt_down (hook wrapper) is evaluated for all 65536 wire values x every last value in windows around every class of boundary and a stride over the 32-bit range, against the u64 specification rule. (b) BFS over histories of whole uplink transactions on the real nb device; each delivers one frame of an alphabet of fresh / replayed / reordered / far-future / forged / wrong-epoch / oversized frames in RX1 or RX2, from sessions starting at epoch boundaries (uplink counter far from, next to and at exhaustion); a reference acceptor (independent codec + spec rule) decides, and response, remembered counter, delivered plaintext, no-double-accept and monotonicity are checked at every transition.",
-    "Trusted: refcodec/refcrypto, spec_next_fcnt in dev.rs. Window size limit taken from the RfConfig the device bound to the window (C10 checks that). (d) per region and uplink rate, frames at and one byte above every size limit under every RX1 data-rate offset the region admits, the limit taken independently from the window's spreading factor and bandwidth. (c) the same alphabet on the async device in Class C (idle rxc_listen, receptions while waiting for RX1/RX2, per-window size limits with a fast uplink rate). Depth-bounded (4 transactions; 6 in the thorough tier).",
+    "Trusted: refcodec/refcrypto, spec_next_fcnt in dev.rs. Window size limit taken from the RfConfig the device bound to the window (C10 checks that). (d) per region and uplink rate, frames at and one byte above every size limit under every RX1 data-rate offset the region admits, the limit taken independently from the window's spreading factor and bandwidth. (c) the same alphabet on the async device in Class C (idle rxc_listen, receptions while waiting for RX1/RX2, per-window size limits with a fast uplink rate). (e) Class C size limits after an RXParamSetupReq of the same or an earlier uplink renegotiated the RX2 data rate. Depth-bounded (4 transactions; 6 in the thorough tier).",
     "DESIGN.md §3 C05")
 chk("C06", "fault_enumeration", "explicit-state BFS with a radio fault at every radio call position (deviation-bounded), reference codec decodes every transmitted frame",
     "BFS over histories of uplink transactions and Class C listening on both real front-ends; every transaction is explored with every receive outcome and with a deviation at each radio call position - one failing call, or an outage spanning 2-3 consecutive calls / the rest of the public call - (bound 1 quick, 2 thorough), downlinks incl. accepted LinkADRReq with NbTrans 2 / 15, from sessions with counters at 0, 16-bit and 32-bit boundaries. A monitor decodes every frame handed to the radio, recovers its 32-bit counter by MIC verification, and requires strict growth (identical retransmission tolerated), payload encryption under the same counter, and expiry instead of wrap.",
@@ -34,7 +34,7 @@ chk("C06", "fault_enumeration", "explicit-state BFS with a radio fault at every 
     "DESIGN.md §3 C06")
 
 chk("C07", "model_checking", "self-composition (twin devices) explored by explicit-state BFS; rejection decided by the reference acceptor",
-    "Pair states of two real devices driven with identical events and RNG; twin B additionally receives one candidate frame (random bytes, bit flips of the authentic frame, other session, replays, stale / too-far counters, wrong-epoch MIC, oversized, JoinAccepts under wrong key / wrong length, JoinAccept in a data session, data frame in a join window) at every receive opportunity of every transaction, joins included (RX1, RX2; Class C: before RX1, before RX2, idle). Only frames the reference rejects count. The twins are compared in lock-step (responses, radio and timer operations, delivered downlinks, snapshots) for the rest of the history; oversized frames may end the receive procedure.",
+    "Pair states of two real devices driven with identical events and RNG; twin B additionally receives one candidate frame (random bytes, bit flips of the authentic frame, other session, replays, stale / too-far counters, wrong-epoch MIC, oversized, JoinAccepts under wrong key / wrong length, JoinAccept in a data session, data frame in a join window) at every receive opportunity of every transaction, joins included and re-joins from the joined state included (RX1, RX2; Class C: before RX1, before RX2, idle). Only frames the reference rejects count. The twins are compared in lock-step (responses, radio and timer operations, delivered downlinks, snapshots) for the rest of the history; oversized frames may end the receive procedure.",
     "Trusted: refcodec/refcrypto and the freshness rule; one injection per history; depth 3 (quick) / 4 (thorough) transactions; nb and async (+Class C) front-ends, ABP and OTAA (also OTAA with Class C enabled); IN865 at its highest rate with the largest RX1 offset.",
     "DESIGN.md §3 C07")
 
@@ -64,7 +64,7 @@ chk("C12", "model_checking", "complete reachable-state graph by BFS with O(1) st
 
 chk("C08", "model_checking", "exhaustive command-value sweep over short histories on the real device, executable reference MAC model as oracle",
     "Each case is a history on a fresh real device: base state, 0-2 prior command downlinks, the judged downlink (FOpts or port 0), two uplinks, an acknowledging downlink, one more uplink. The judged streams cover the full value domain of every request the statement lists, LinkADRReq blocks, answer-budget overflows at every position and Class C deliveries (between TX and RX1, and while idle in rxc_listen with the answers of the preceding Class A downlink still unsent). The reference model (refmac over refregion) checks: one answer per handled request in order, whole commands, only trailing answers dropped; each fully acknowledged request changed exactly the commanded fields of the MAC snapshot and each refused one changed nothing (the model replays the device's own answers); unambiguously invalid requests carry a negative bit; sticky answers repeat until an accepted Class A downlink, others are sent once; Class C receptions neither execute nor clear.",
-    "Trusted: refmac.rs / refregion.rs. Where RP002 leaves room either answer is accepted. nb runs the full domain, async a stride of it (shared MAC code).",
+    "Trusted: refmac.rs / refregion.rs. Where RP002 leaves room either answer is accepted. nb runs the full domain, async a stride of it (shared MAC code). Commanded TX power is also judged on five boards (maximum power, antenna gain) in all nine regions: the next uplink asks the radio for min(board maximum, acknowledged EIRP - gain).",
     "DESIGN.md §3 C08")
 
 chk("C20", "model_checking", "explicit-state BFS with a snapshot/restore at every state (crash point = every state), twin lock-step, exhaustive structural mutation of documents",
